@@ -93,7 +93,11 @@ def seqFrom {α : Type} (defaults : String → α) (keys : List String) :
     p.values.mapIdx (fun k v => (⟨n + k, assign defaults keys p.key v, n + k⟩ : CRun α))
       ++ seqFrom defaults keys (n + p.values.length) ps
 
-/-- `SequentialMode.get_parameters_item`; `defaults k` is `processor.get(k)` -/
+/-- `SequentialMode.get_parameters_item(processor)`; `defaults k` is `processor.get(k)` of the processor
+given to THIS call: the mode object keeps no state between calls, so the runs of a call are a function
+of (the parameter declarations, the configuration of that call) only — the harness's history stream
+(one `Observation` reused for several `run_mode` calls on reconfigured objects) sends every call to
+this function with that call's own `defaults`. -/
 def sequentialRuns {α : Type} (defaults : String → α) (ps : List (Param α)) : List (CRun α) :=
   let es := enabledSteps ps
   seqFrom defaults (es.map (·.key)).eraseDups 0 es
